@@ -595,6 +595,8 @@ where
 
         let (index, conflict) = self.key_to_hash.build_key(k);
         // delete immediately
+        #[cfg(transparencies_stretto_verif)]
+        crate::verif::yield_point("remove.before_store_remove");
         let prev = self.store.try_remove(&index, conflict)?;
 
         if let Some(prev) = prev {
@@ -646,6 +648,8 @@ where
             return Ok(false);
         }
 
+        #[cfg(transparencies_stretto_verif)]
+        crate::verif::yield_point("insert.before_store_update");
         if let Some((index, item)) = self.try_update(key, val, cost, ttl, only_update)? {
             #[cfg(transparencies_stretto_verif)]
             crate::verif::yield_point("insert.after_store_update");
